@@ -123,6 +123,10 @@ pub fn plan15(tier: Tier) -> Plan {
     for p in [0.25, 0.5] {
         checks.push(qcheck(Mode::C15, p, "qhuge", if tier == Tier::Quick { 8 } else { 10 }, 0.0));
     }
+    // observations within a factor 8 of f64::MAX whose span does not overflow
+    for p in [0.1, 0.25, 0.5, 0.75, 0.9] {
+        checks.push(super::quantile::qcheck_scaled(Mode::C15, p, "qties", if tier == Tier::Quick { 9 } else { 11 }, 0.0, (2.0f64).powi(1021)));
+    }
     // subnormal observations
     for p in [0., 0.25, 1. / 3., 0.5, 0.75, 1.] {
         checks.push(qcheck(Mode::C15, p, "qden", if tier == Tier::Quick { 7 } else { 9 }, 0.0));
